@@ -58,6 +58,8 @@ enum Ev {
     QueueOk { n: u64, id: u64 },
     QueueErr { n: u64, id: u64 },
     Observed { queued_first: u64, queued_next: u64, persisted_first: u64, persisted_next: u64 },
+    /// the process restarts: a new manager is built over the durable image
+    Restart { durable_first: u64, durable_next: u64 },
 }
 
 struct StoreInner {
@@ -69,6 +71,8 @@ struct StoreInner {
     prev_submitted: Mutex<Option<u64>>,
     /// writes waiting for the persistence actor
     release: sync::Semaphore,
+    /// get_block calls that reached storage (cache misses)
+    storage_reads: Mutex<u64>,
 }
 
 #[derive(Clone)]
@@ -115,6 +119,7 @@ impl EngineInterface for Store {
     }
     async fn get_block(&self, _ctx: &ctx::Ctx, n: BlockNumber) -> ctx::Result<validator::Block> {
         let first = *self.0.first.lock().unwrap();
+        *self.0.storage_reads.lock().unwrap() += 1;
         if n.0 < first {
             return Err(anyhow::format_err!("pruned").into());
         }
@@ -173,6 +178,7 @@ fn run_once(ch: &Ch, chn: &Chain, scenario: u32) -> ExecResult {
         log: Mutex::new(vec![]),
         prev_submitted: Mutex::new(None),
         release: sync::Semaphore::new(0),
+        storage_reads: Mutex::new(0),
     }));
     let st2 = store.clone();
     let sch = Arc::new(SendCh(ch.clone()));
@@ -354,6 +360,300 @@ fn run_once(ch: &Ch, chn: &Chain, scenario: u32) -> ExecResult {
     ExecResult { obs: fx_hash(&format!("{lg:?}")), violation, nontrivial: true, witnesses: vec![("side_channel_jump", side), ("submissions", lg.iter().filter(|e| matches!(e, Ev::Submit { .. })).count() as u64)] }
 }
 
+fn new_store(genesis: &validator::Genesis) -> Store {
+    Store(Arc::new(StoreInner {
+        genesis: genesis.clone(),
+        persisted: sync::watch::channel(BlockStoreState { first: BlockNumber(0), last: None }).0,
+        first: Mutex::new(0),
+        blocks: Mutex::new(vec![]),
+        log: Mutex::new(vec![]),
+        prev_submitted: Mutex::new(None),
+        release: sync::Semaphore::new(0),
+        storage_reads: Mutex::new(0),
+    }))
+}
+
+/// One incarnation of the node: a manager + runner over `st`, submitters with the given plans, a
+/// reader, and a persistence actor `actor` (returns when this incarnation ends). Background tasks
+/// are cancelled when the actor returns - which is what a crash does to them.
+async fn incarnation<'a, F, Fut>(root: &'a ctx::Ctx, st: &'a Store, plans: Vec<Vec<validator::Block>>, read_all: bool, actor: F) -> anyhow::Result<()>
+where
+    F: FnOnce(Arc<EngineManager>) -> Fut + Send + 'a,
+    Fut: std::future::Future<Output = anyhow::Result<()>> + Send + 'a,
+{
+    let (mgr, runner) = EngineManager::new(root, Box::new(st.clone()), time::Duration::seconds(1)).await.map_err(|e| anyhow::format_err!("EngineManager::new: {e:?}"))?;
+    let mgr2 = mgr.clone();
+    let mgr = &mgr;
+    scope::run!(root, |ctx, s| async move {
+        s.spawn_bg(async move {
+            if let Err(e) = runner.run(ctx).await {
+                return Err(anyhow::format_err!("RUNNER-ERROR: {e:#}"));
+            }
+            Ok(())
+        });
+        for plan in plans {
+            s.spawn_bg(async move {
+                for b in plan {
+                    let (n, id) = (b.number().0, block_id(&b));
+                    match mgr.queue_block(ctx, b).await {
+                        Ok(()) => st.0.log.lock().unwrap().push(Ev::QueueOk { n, id }),
+                        Err(ctx::Error::Canceled(_)) => return Ok(()),
+                        Err(_) => st.0.log.lock().unwrap().push(Ev::QueueErr { n, id }),
+                    }
+                }
+                anyhow::Ok(())
+            });
+        }
+        s.spawn_bg(async move {
+            loop {
+                let q = mgr.queued();
+                let p = mgr.persisted();
+                st.0.log.lock().unwrap().push(Ev::Observed { queued_first: q.first.0, queued_next: q.next().0, persisted_first: p.first.0, persisted_next: p.next().0 });
+                let ns: Vec<u64> = if read_all || q.next().0 - q.first.0 <= 3 { (q.first.0..q.next().0).collect() } else { vec![q.first.0, (q.first.0 + q.next().0) / 2, q.next().0 - 1] };
+                for n in ns {
+                    if let Ok(b) = mgr.get_block(ctx, BlockNumber(n)).await {
+                        st.0.log.lock().unwrap().push(Ev::Read { n, id: b.as_ref().map(block_id) });
+                    }
+                }
+                if mgr.wait_for_queued_change(ctx, &q).await.is_err() {
+                    return Ok(());
+                }
+            }
+        });
+        actor(mgr2).await
+    })
+    .await
+}
+
+/// Oracle shared by the scenarios 3 and 4: `canon[n]` is the id of the only legitimate block n.
+fn check_log(lg: &[Ev], canon: &[u64]) -> Option<String> {
+    let mut violation: Option<String> = None;
+    let mut last_queued_next = 0u64;
+    let mut prev_sub: Option<u64> = None;
+    for e in lg {
+        match e {
+            Ev::Restart { .. } => {
+                prev_sub = None;
+                last_queued_next = 0;
+            }
+            Ev::Submit { n, id, durable_next, .. } => {
+                let follows_prev = prev_sub.map(|p| p + 1 == *n).unwrap_or(false);
+                if !follows_prev && *durable_next != *n {
+                    violation.get_or_insert(format!("block {n} was handed to durable storage although the previous submission of this incarnation was {prev_sub:?} and the durable head expects {durable_next} (gap or reordering)"));
+                }
+                if canon.get(*n as usize) != Some(id) {
+                    violation.get_or_insert(format!("a block that is not block {n} of the chain was handed to durable storage"));
+                }
+                prev_sub = Some(*n);
+            }
+            Ev::Read { n, id: Some(id) } => {
+                if canon.get(*n as usize) != Some(id) {
+                    violation.get_or_insert(format!("get_block({n}) returned a block that is not block {n} of the chain"));
+                }
+            }
+            Ev::Observed { queued_first, queued_next, persisted_first, persisted_next } => {
+                if queued_next < persisted_next {
+                    violation.get_or_insert(format!("queued range [{queued_first},{queued_next}) does not cover the persisted range [{persisted_first},{persisted_next})"));
+                }
+                if *queued_next < last_queued_next {
+                    violation.get_or_insert(format!("queued.next went backwards from {last_queued_next} to {queued_next}"));
+                }
+                last_queued_next = *queued_next;
+            }
+            _ => {}
+        }
+    }
+    violation
+}
+
+fn short_log(lg: &[Ev]) -> String {
+    let v: Vec<String> = lg.iter().filter(|e| !matches!(e, Ev::Read { .. } | Ev::QueueOk { .. })).map(|e| format!("{e:?}")).collect();
+    if v.len() > 80 {
+        format!("{} ... {}", v[..40].join(", "), v[v.len() - 40..].join(", "))
+    } else {
+        v.join(", ")
+    }
+}
+
+/// Scenario 3: pruning of the start of the range and one restart (crash: in-flight writes are lost,
+/// a new manager is built over the durable image, a syncing peer re-submits the whole chain).
+fn run_prune_restart(ch: &Ch, chn: &Chain) -> ExecResult {
+    let store = new_store(&chn.w.c.genesis);
+    let st2 = store.clone();
+    let sch = Arc::new(SendCh(ch.clone()));
+    let stuck = sched::run(ch, |idle| async move {
+        let clock = ctx::ManualClock::new();
+        let root = ctx::test_root(&clock);
+        let (root, st, sch, idle_ref) = (&root, &st2, &sch, &idle);
+        let blk = |i: usize| -> validator::Block { chn.blocks[i].clone().into() };
+        let fut = async move {
+            // first incarnation
+            let plans = vec![vec![blk(0), blk(1), blk(2)], vec![blk(1), blk(2), blk(3)]];
+            incarnation(root, st, plans, true, |_mgr| async move {
+                for _ in 0..5 {
+                    idle_ref.settle().await;
+                    match env_choose(&sch.0, 3) {
+                        0 => st.0.release.add_permits(1),
+                        1 => {
+                            // prune the oldest stored block
+                            let next = st.next();
+                            let mut f = st.0.first.lock().unwrap();
+                            if *f + 1 < next {
+                                *f += 1;
+                                let nf = *f;
+                                drop(f);
+                                st.0.log.lock().unwrap().push(Ev::Prune { first: nf });
+                                st.publish();
+                            } else {
+                                drop(f);
+                                st.0.release.add_permits(1);
+                            }
+                        }
+                        _ => break, // crash now
+                    }
+                }
+                idle_ref.settle().await;
+                Ok(())
+            })
+            .await?;
+            // the crash: permits that nobody consumed are gone, in-flight writes never happened
+            while st.0.release.try_acquire().map(|p| p.forget()).is_ok() {}
+            *st.0.prev_submitted.lock().unwrap() = None;
+            st.0.log.lock().unwrap().push(Ev::Restart { durable_first: *st.0.first.lock().unwrap(), durable_next: st.next() });
+            // second incarnation: a syncing peer offers the whole chain again
+            let plans = vec![(0..5).map(blk).collect::<Vec<_>>()];
+            incarnation(root, st, plans, true, |mgr| async move {
+                let at_start = (mgr.queued(), mgr.persisted());
+                if at_start.0 != at_start.1 || at_start.1.next().0 != st.next() {
+                    return Err(anyhow::format_err!("RESTART-STATE: after the restart queued = {:?}, persisted = {:?}, durable next = {}", at_start.0, at_start.1, st.next()));
+                }
+                for _ in 0..3 {
+                    idle_ref.settle().await;
+                    match env_choose(&sch.0, 2) {
+                        0 => st.0.release.add_permits(1),
+                        _ => {
+                            idle_ref.settle().await;
+                            st.0.release.add_permits(1)
+                        }
+                    }
+                }
+                st.0.release.add_permits(100);
+                idle_ref.settle().await;
+                Ok(())
+            })
+            .await
+        };
+        match sched::drive(&idle, fut, |k| k < 400).await {
+            sched::Driven::Done(r) => r.err().map(|e| format!("{e:#}")),
+            sched::Driven::Stuck => Some("STUCK".into()),
+        }
+    });
+    let lg = store.0.log.lock().unwrap().clone();
+    let canon: Vec<u64> = chn.blocks.iter().map(|b| block_id(&b.clone().into())).collect();
+    let mut violation = stuck.map(|s| format!("deadlock / error: {s}"));
+    if violation.is_none() {
+        violation = check_log(&lg, &canon);
+    }
+    if violation.is_none() && store.next() < 5 {
+        violation = Some(format!("only {} of 5 blocks reached durable storage after the restart although the whole chain was offered and persistence kept completing writes", store.next()));
+    }
+    let violation = violation.map(|v| format!("{v}; events: {}", short_log(&lg)));
+    let prunes = lg.iter().filter(|e| matches!(e, Ev::Prune { .. })).count() as u64;
+    let lost = lg.iter().any(|e| matches!(e, Ev::Restart { durable_next, .. } if *durable_next < 4)) as u64;
+    ExecResult { obs: fx_hash(&format!("{lg:?}")), violation, nontrivial: true, witnesses: vec![("prunes", prunes), ("restart_with_unpersisted_blocks", lost)] }
+}
+
+const LONG: usize = 108; // CACHE_CAPACITY (100) + 8
+
+/// Scenario 4: a chain longer than the cache capacity with a lagging persister: eviction may only
+/// drop blocks that are already persisted, and evicted blocks are served from storage.
+fn run_eviction(ch: &Ch, genesis: &validator::Genesis, long: &[validator::Block]) -> ExecResult {
+    let store = new_store(genesis);
+    let st2 = store.clone();
+    let sch = Arc::new(SendCh(ch.clone()));
+    let stuck = sched::run(ch, |idle| async move {
+        let clock = ctx::ManualClock::new();
+        let root = ctx::test_root(&clock);
+        let (root, st, sch, idle_ref) = (&root, &st2, &sch, &idle);
+        let fut = async move {
+            incarnation(root, st, vec![long.to_vec()], false, |mgr| async move {
+                // reads by the actor itself: the reader task only wakes up on queue changes, evictions
+                // happen when persistence catches up
+                let read = |n: u64| {
+                    let mgr = mgr.clone();
+                    async move {
+                        if let Ok(b) = mgr.get_block(root, BlockNumber(n)).await {
+                            st.0.log.lock().unwrap().push(Ev::Read { n, id: b.as_ref().map(block_id) });
+                        }
+                    }
+                };
+                for _ in 0..6 {
+                    idle_ref.settle().await;
+                    let q = mgr.queued();
+                    if q.last.is_some() {
+                        read(q.first.0).await;
+                        read((q.first.0 + q.next().0) / 2).await;
+                    }
+                    match env_choose(&sch.0, 3) {
+                        0 => st.0.release.add_permits(1),
+                        1 => st.0.release.add_permits(60),
+                        _ => {
+                            // prune everything stored but the newest block
+                            let next = st.next();
+                            if next >= 2 {
+                                *st.0.first.lock().unwrap() = next - 1;
+                                st.0.log.lock().unwrap().push(Ev::Prune { first: next - 1 });
+                                st.publish();
+                            }
+                            st.0.release.add_permits(1);
+                        }
+                    }
+                }
+                st.0.release.add_permits(1000);
+                idle_ref.settle().await;
+                let q = mgr.queued();
+                for n in [q.first.0, q.first.0 + 1, (q.first.0 + q.next().0) / 2, q.next().0 - 1] {
+                    read(n).await;
+                }
+                Ok(())
+            })
+            .await
+        };
+        match sched::drive(&idle, fut, |k| k < 2000).await {
+            sched::Driven::Done(r) => r.err().map(|e| format!("{e:#}")),
+            sched::Driven::Stuck => Some("STUCK".into()),
+        }
+    });
+    let lg = store.0.log.lock().unwrap().clone();
+    let canon: Vec<u64> = long.iter().map(block_id).collect();
+    let mut violation = stuck.map(|s| format!("deadlock / error: {s}"));
+    if violation.is_none() {
+        violation = check_log(&lg, &canon);
+    }
+    if violation.is_none() && (store.next() as usize) < long.len() {
+        violation = Some(format!("only {} of {} blocks reached durable storage although they were submitted in order and persistence kept completing writes (a queued block was lost from the cache before it was persisted)", store.next(), long.len()));
+    }
+    let violation = violation.map(|v| format!("{v}; events: {}", short_log(&lg)));
+    let reads = *store.0.storage_reads.lock().unwrap();
+    ExecResult { obs: fx_hash(&format!("{lg:?}")), violation, nontrivial: true, witnesses: vec![("reads_served_by_storage", reads), ("prunes", lg.iter().filter(|e| matches!(e, Ev::Prune { .. })).count() as u64)] }
+}
+
+fn long_chain(seed: u64) -> (validator::Genesis, Vec<validator::Block>) {
+    // genesis.first_block above the chain: all blocks are pre-genesis blocks (no certificates to
+    // verify, so an execution over 108 blocks stays cheap)
+    let c = util::committee_with(seed, &[1, 1, 1], 0, 1000, Default::default());
+    let blocks = (0..LONG as u64).map(|n| validator::Block::PreGenesis(validator::PreGenesisBlock { number: BlockNumber(n), payload: Payload(vec![n as u8, (n >> 8) as u8, 0x77]), justification: validator::Justification(vec![n as u8]) })).collect();
+    (c.genesis, blocks)
+}
+
+fn run_scenario(ch: &Ch, chn: &Chain, lgen: &validator::Genesis, long: &[validator::Block], sc: u32) -> ExecResult {
+    match sc {
+        3 => run_prune_restart(ch, chn),
+        4 => run_eviction(ch, lgen, long),
+        _ => run_once(ch, chn, sc),
+    }
+}
+
 pub fn run(args: &Args) -> Report {
     let mut rep = Report::new("C08", "model_checking");
     let chn = chain(args.seed, 5);
@@ -361,7 +661,8 @@ pub fn run(args: &Args) -> Report {
         let rp = &r["replay"];
         let sc = rp["config"]["scenario"].as_u64().unwrap_or(1) as u32;
         let devs: core::Deviations = rp["deviations"].as_array().map(|a| a.iter().map(|p| (p[0].as_u64().unwrap() as u32, p[1].as_u64().unwrap() as u32)).collect()).unwrap_or_default();
-        let (res, div) = core::replay_one(&|ch: &Ch| run_once(ch, &chn, sc), devs);
+        let (lg, lb) = long_chain(args.seed);
+        let (res, div) = core::replay_one(&|ch: &Ch| run_scenario(ch, &chn, &lg, &lb, sc), devs);
         if let Some(d) = div {
             rep.machinery_errors.push(d);
         }
@@ -376,9 +677,15 @@ pub fn run(args: &Args) -> Report {
     let (mut execs, mut points, mut distinct, mut side) = (0u64, 0u64, 0u64, 0u64);
     let mut capped = false;
     let mut stats = vec![];
-    for sc in [2u32, 1] {
-        let cfg = ExploreCfg::new(&format!("engine-manager[scenario {sc}]"), bound, budget.saturating_sub(t0.elapsed()) / if sc == 2 { 2 } else { 1 });
-        let st = explore(&cfg, |ch| run_once(ch, &chn, sc));
+    let (lg, lb) = long_chain(args.seed);
+    let (mut prunes, mut restarts_lossy, mut storage_reads) = (0u64, 0u64, 0u64);
+    for (k, sc) in [2u32, 3, 4, 1].into_iter().enumerate() {
+        let b = bound;
+        let cfg = ExploreCfg::new(&format!("engine-manager[scenario {sc}]"), b, budget.saturating_sub(t0.elapsed()) / (4 - k as u32));
+        let st = explore(&cfg, |ch| run_scenario(ch, &chn, &lg, &lb, sc));
+        prunes += *st.witnesses.get("prunes").unwrap_or(&0);
+        restarts_lossy += *st.witnesses.get("restart_with_unpersisted_blocks").unwrap_or(&0);
+        storage_reads += *st.witnesses.get("reads_served_by_storage").unwrap_or(&0);
         execs += st.execs;
         points += st.choice_points;
         distinct += st.distinct_obs;
@@ -390,18 +697,23 @@ pub fn run(args: &Args) -> Report {
     if rep.violations.is_empty() && side == 0 {
         rep.machinery_errors.push("vacuous: no execution had a side-channel persistence jump".into());
     }
+    if rep.violations.is_empty() && (prunes == 0 || restarts_lossy == 0 || storage_reads == 0) {
+        rep.machinery_errors.push(format!("vacuous: prunes {prunes}, restarts that lost queued blocks {restarts_lossy}, reads served by storage {storage_reads}"));
+    }
     rep.coverage = json!({
         "states": execs, "transitions": points, "traces_validated_against_impl": execs,
         "evaluations": execs, "distinct_nontrivial": distinct,
         "samples": [
             {"scenario": 1, "case": "three submitters: [b0,b1,b2], [b1, a conflicting certified block 1, b3], [block 2 with an under-weight certificate, b0]; persistence completes writes one at a time or lags"},
-            {"scenario": 2, "case": "two submitters: [b0,b1,b2], [b3,b4]; persistence may jump to block 3 through a side channel while earlier blocks are still queued / cached"},
+            {"scenario": 2, "case": "submitters [b0,b1], [b4], [b1]; blocks 2-3 only arrive through a side-channel persistence jump that overtakes the queue"},
+            {"scenario": 3, "case": "submitters [b0,b1,b2], [b1,b2,b3]; persistence completes a write / prunes the oldest block / the node crashes (in-flight writes lost); a new manager over the durable image; a syncing peer offers b0..b4 again"},
+            {"scenario": 4, "case": "108 pre-genesis blocks (cache capacity 100 + 8) submitted in order; persistence completes 1 or 60 writes or prunes all but the newest block at each quiescent point; reads of first / middle / last queued block"},
         ],
         "rule": "a state is one complete execution (schedule + persistence actor choices) of the driver around the real EngineManager and its runner; all executions within the deviation bound; distinct = distinct event logs",
         "deviation_bound": bound, "exhaustive": !capped, "capped_by_time_budget": capped,
-        "witness_side_channel_jumps": side,
+        "witness_side_channel_jumps": side, "witness_prunes": prunes, "witness_restarts_losing_queued_blocks": restarts_lossy, "witness_reads_served_by_storage": storage_reads,
         "explorations": stats,
     });
-    rep.assumptions = vec!["a 5-block chain on a 3-validator committee; cache eviction beyond CACHE_CAPACITY (100 blocks), pruning and restarts are not driven in this version".into(), "task switches only at awaits that return Pending".into()];
+    rep.assumptions = vec!["scenarios 1-3: a 5-block chain on a 3-validator committee; scenario 4: 108 pre-genesis blocks (no certificates)".into(), "a crash loses in-flight writes atomically (queue_next_block is atomic by contract)".into(), "task switches only at awaits that return Pending".into()];
     rep
 }
